@@ -21,6 +21,7 @@ func rulesC02(c *Ctx) {
 	c.NotDec = append(c.NotDec, "the cascade on concrete dependency graphs (completeness follows by induction from R2.4's premises; the induction is in DESIGN.md, not mechanised)", "DisableRIBCheckFn configurations", "effects of Go map iteration order")
 	ribFamily(c, famSel{gate: true, replacedOrig: true, heldOnly: true})
 	rulePendingWriters(c) // a held operation leaves the pending set only with a verdict (shared with C06)
+	ruleStateWriters(c, writersRIB)
 	ruleCheckWiring(c)
 	ruleCheckFnTable(c)
 	ruleCanResolve(c)
